@@ -62,7 +62,7 @@ def run(ck):
         nb = rng.randint(2, 4 if quick else 6)
         bn = None if i % 2 == 0 else rng.sample(alphabet, nb)
         cases.append({"kind": "poly" if i % 4 != 3 else "bspline", "fitter": fitter, "types": types, "n_bands": nb, "band_names": bn, "linked": linked, "const": const,
-                      "order": rng.randint(0, 4), "wavelengths": sorted(rng.sample([0.4, 0.6, 0.9, 1.2, 1.6, 2.2, 3.6, 4.5], nb)), "sky": rng.choice(["none", "flat"]),
+                      "order": rng.randint(0, 4), "wavelengths": (list if i % 4 in (0, 3) else sorted)(rng.sample([0.4, 0.6, 0.9, 1.2, 1.6, 2.2, 3.6, 4.5], nb)), "sky": rng.choice(["none", "flat"]),
                       "coef_scale": rng.choice([1.0, 50.0, -50.0]), "seed": rng.randint(0, 10**6),
                       "user_range": ({linked[0]: user_range_for(linked[0])} if i % 5 == 1 and not any(s in linked[0] for s in ("xc", "yc")) else None)})
     # user ranges on parameters that also have a built-in default range (n, ellip, theta): the user's must win
@@ -70,6 +70,10 @@ def run(ck):
         urange = {"n": [1.0, 4.0], "ellip": [0.1, 0.5], "theta": [0.5, 2.5]}[pname]
         cases.append({"kind": "poly" if i % 2 == 0 else "bspline", "fitter": "single", "types": ["sersic"], "n_bands": 3, "band_names": None, "linked": sorted([pname, "flux"]), "const": ["xc"],
                       "order": 2, "wavelengths": [0.6, 1.2, 2.2], "sky": "flat", "coef_scale": 50.0, "seed": rng.randint(0, 10**6), "user_range": {pname: urange}})
+    # bands listed in an order that is NOT increasing in wavelength (spline and polynomial links)
+    for kind_ in ("bspline", "poly"):
+        cases.append({"kind": kind_, "fitter": "single", "types": ["sersic"], "n_bands": 3, "band_names": None, "linked": ["flux", "n"], "const": ["xc"],
+                      "order": 2, "wavelengths": [1.5, 0.6, 0.9], "sky": "none", "coef_scale": 1.0, "seed": rng.randint(0, 10**6), "user_range": None})
     ck.log("implementation: tracing %d multi-band models" % len(cases))
     import concurrent.futures as cf
     nsh = min(6, vlib.NCPU)
